@@ -51,6 +51,12 @@ class Ctx:
         e = Executor(self.mir, self.enums, K=K)
         e.impl_index = self.idx
         stdmodels.install_core(e)
+        from mirsmt import itermodels, deltamodels
+        itermodels.install(e)
+        e.add_model(r"^core::slice::<impl \[u8\]>::chunks$", deltamodels._chunks, "<[u8]>::chunks (concrete length)")
+        e.add_model(r"^<std::slice::Chunks<'_, u8> as Iterator>::next$", _chunks_next, "slice::Chunks::next")
+        e.add_model(r"^<&\[u8\] as IntoIterator>::into_iter$", stdmodels._slice_iter, "<&[u8] as IntoIterator>::into_iter")
+        e.cand_cap = 64
         return e
 
     def fn(self, ex, ty, m):
@@ -79,6 +85,15 @@ class Ctx:
         if not isinstance(v, VInt) or not z3.is_int_value(v.t):
             raise Inconclusive("constant %s::%s not resolved from the MIR dump" % (ty, name))
         return v.t.as_long(), v.ty
+
+
+def _chunks_next(ex, st, args, dest_ty, func, where):
+    from mirsmt import itermodels
+    ref = args[0]
+    it = ex.deref(st, ref)
+    if isinstance(it, VStruct) and it.name == "PyIter":
+        ex.store_ref(st, ref, itermodels.mk_it([(z3.BoolVal(True), v) for v in it.f]))
+    return itermodels._next(ex, st, args, dest_ty, func, where)
 
 
 def mk_state(ctx, ty, vals):
@@ -580,12 +595,28 @@ def new_accelerated(ob, ty):
              functions, exit_witness)
 
 
-def new_unrolled(ob, ty, nmax):
+def new_accelerated_or_fallback(ob, ty):
+    """DESIGN §4 C17.5: if the loop of `new` no longer has the additive-accumulator shape, the full-width obligation is
+    NOT claimed for `new`; the claim for it is reduced to the unrolled windows (stated in evidence) — not an alarm."""
+    n0 = len(ob.R.results)
+    try:
+        new_accelerated(ob, ty)
+    except (Unsupported, Inconclusive) as e:
+        del ob.R.results[n0:]
+        bound = 16 if ob.tier == "quick" else 48
+        ob.R.add("C17/%s::new/accelerated" % ty, "assumed", queries=0,
+                 detail="loop acceleration not applicable to the current shape of `new` (%s): the full-width claim for `new` is REDUCED to windows of "
+                        "<= %d symbolic bytes (unrolled below); longer windows of this constructor are not covered" % (str(e)[:160], bound))
+        ob.R.notes.append("%s::new: acceleration not applicable, bound reduced to unrolling" % ty)
+        new_unrolled(ob, ty, bound, tag="unrolled-fallback")
+
+
+def new_unrolled(ob, ty, nmax, tag="unrolled"):
     """cross-check of the acceleration: `new` fully unrolled on n symbolic bytes, n = 0..nmax"""
     ctx, R = ob.ctx, ob.R
     consts = ob.consts(ty)
     for n in range(0, nmax + 1):
-        ex = ctx.ex(K=n + 1)
+        ex = ctx.ex(K=2 * n + 3)
         xs = [ex.fresh_int("x%d" % j, lo=0, hi=255) for j in range(n)]
         arr = z3.K(z3.IntSort(), I(0))
         for j, xj in enumerate(xs):
@@ -602,7 +633,7 @@ def new_unrolled(ob, ty, nmax):
             bs = [model_int(model, xj) for xj in xs]
             return confirm_history(R, "C17/%s::new/unrolled-%d" % (ty, n), ty, [["new", bs]], bs, "new(%s)" % bs)
 
-        ob.prove(ex, merged, "C17/%s::new/unrolled-%d" % (ty, n), "window of exactly %d symbolic bytes, loop unrolled %d times" % (n, n + 1),
+        ob.prove(ex, merged, "C17/%s::new/%s-%d" % (ty, tag, n), "window of exactly %d symbolic bytes, loop unrolled %d times" % (n, n + 1),
                  ["%s::new" % ty], wit)
 
 
@@ -741,7 +772,7 @@ def all_obligations(R, tier, seed, only_weak_link=False):
                      lambda: step_obligation(ob, ty, "roll"),
                      lambda: step_obligation(ob, ty, "push"),
                      lambda: digest_obligation(ob, ty),
-                     lambda: new_accelerated(ob, ty),
+                     lambda: new_accelerated_or_fallback(ob, ty),
                      lambda: new_unrolled(ob, ty, 6 if tier == "quick" else 24)):
             try:
                 step()
